@@ -7,15 +7,27 @@ From PC.Env Require Import Model.
 Import ListNotations.
 Open Scope list_scope.
 
+(* a piece of a generated configuration file *)
+Inductive seg :=
+| SLit (s : str)                          (* YAML skeleton text, written by the harness *)
+| STok (toks : list token) (obs : str)    (* a scalar generated from a token list; the value the loader returned *)
+| SRaw (raw obs : str).                   (* a scalar with arbitrary placements of $ { }; the value returned *)
+
+Definition seg_raw (g : seg) : str :=
+  match g with SLit s => s | STok t _ => print t | SRaw r _ => r end.
+Definition seg_obs (g : seg) : str :=
+  match g with SLit s => s | STok _ o => o | SRaw _ o => o end.
+Definition file_text (segs : list seg) : str := concat (map seg_raw segs).
+(* the same text with every generated scalar replaced by the value the loader returned for it *)
+Definition shape_text (segs : list seg) : str := concat (map seg_obs segs).
+
 Inductive ocase :=
 (* one configuration file loaded by loader.Load under a controlled process environment.
      env      : the process environment followed by the entries of the .env files, in lookup order
-     file     : the text of the file
-     shape    : the same text with every generated scalar replaced by the value the loader returned for it
-                (all generated scalars are single-quoted YAML scalars free of quotes and line breaks, so
-                 YAML decoding is the identity on them)
-     fields   : for every scalar generated from a token list: the tokens and the value the loader returned *)
-| CLoad (disabled : bool) (env : list (str * str)) (file shape : str) (fields : list (list token * str))
+     segs     : the text of the file in pieces (all generated scalars are single-quoted YAML scalars free of
+                quotes and line breaks, so YAML decoding is the identity on them)
+     err      : loader.Load failed or a field was missing (never expected) *)
+| CLoad (disabled : bool) (env : list (str * str)) (segs : list seg) (err : bool)
 (* one launch of one replica.
      inh      : os.Environ() of the supervisor at launch time
      glob     : the project's `environment` list;  cmds : env_cmds names with the trimmed output of each command
@@ -52,7 +64,8 @@ Definition launch_agrees (model : list str) (ncmds : nat) (wd : str) (real : boo
 (* the repaired code (fixes F16 and F34 applied) *)
 Definition model_ok (c : ocase) : bool :=
   match c with
-  | CLoad dis env file shape _ => str_eqb (load_text dis (getenv env) file) shape
+  | CLoad dis env segs err =>
+      negb err && str_eqb (load_text dis (getenv env) (file_text segs)) (shape_text segs)
   | CLaunch name num inh glob cmds proc wd real oe od =>
       launch_agrees (launch_env name num inh (global_env glob cmds) proc) (length cmds) wd real oe od
   end.
@@ -60,7 +73,8 @@ Definition model_ok (c : ocase) : bool :=
 (* the unchanged code: used only to classify a disagreement as one of the two listed findings *)
 Definition model_orig_ok (c : ocase) : bool :=
   match c with
-  | CLoad dis env file shape _ => str_eqb (load_text_sentinel dis (getenv env) file) shape
+  | CLoad dis env segs err =>
+      negb err && str_eqb (load_text_sentinel dis (getenv env) (file_text segs)) (shape_text segs)
   | CLaunch name num inh glob cmds proc wd real oe od =>
       launch_agrees (launch_env_orig name num inh (global_env glob cmds) proc) (length cmds) wd real oe od
   end.
@@ -84,9 +98,13 @@ Definition own_ok (name : str) (num : N) (obs : list str) : bool :=
 
 Definition holds_C17 (c : ocase) : bool :=
   match c with
-  | CLoad dis env _ _ fields =>
-      forallb (fun f => wf_tokens (fst f) &&
-                        str_eqb (snd f) (if dis then print (fst f) else denote (getenv env) (fst f))) fields
+  | CLoad dis env segs err =>
+      negb err &&
+      forallb (fun g => match g with
+                        | STok toks obs => wf_tokens toks &&
+                                           str_eqb obs (if dis then print toks else denote (getenv env) toks)
+                        | _ => true
+                        end) segs
   | CLaunch name num inh glob cmds proc wd real oe od =>
       let g := global_env glob cmds in
       own_ok name num oe &&
